@@ -9,7 +9,7 @@ from vlib import refmodel as rm, treegen as tg
 SEED = int(os.environ.get('VERIF_SEED', '0') or 0)
 TYPES = [None, 'text', 'checkbox', 'radio', 'submit', 'number', 'range', 'date', 'TEXT', 'search', 'email', 'password',
          'tel', 'url', 'button', 'image', 'week', 'time', 'month', 'datetime-local', 'color', 'file', 'reset', 'Radio',
-         'SUBMIT', '']
+         'SUBMIT', '', 'hidden', 'HIDDEN']
 TYPES_W = TYPES + ['radio'] * 9 + ['checkbox'] * 3 + ['submit'] * 4 + ['number', 'date', 'text'] * 2
 RANGE_TYPES = ('date', 'month', 'week', 'time', 'datetime-local', 'number', 'range')
 
@@ -100,7 +100,20 @@ def gen_doc(r):
     if r.random() < 0.3:
         soup.find('html').attrs['dir'] = r.choice(['rtl', 'ltr', 'auto'])
     block(body)
+    _twins(soup, r)
     return soup
+
+
+def _twins(soup, r):
+    """Sometimes append exact copies of a form / fieldset (identical markup, distinct nodes, ids removed)."""
+    import copy
+    forms = [f for f in soup.find_all(['form', 'fieldset']) if f.parent is not None]
+    if forms and r.random() < 0.45:
+        f = r.choice(forms)
+        for t in [f] + f.find_all(True):
+            t.attrs.pop('id', None)
+        for _ in range(r.choice([1, 2])):
+            f.insert_after(copy.copy(f))
 
 
 def gen_group_doc(r):
@@ -137,6 +150,7 @@ def gen_group_doc(r):
             mk(r.choice(['input', 'button']), p, type=r.choice(['submit', 'submit', 'Submit', 'button', 'image']))
         else:
             mk('input', p, type='checkbox', checked=r.choice([None, '']), indeterminate=r.choice([None, '']))
+    _twins(soup, r)
     return soup
 
 
